@@ -14,7 +14,7 @@ import (
 )
 
 var c15Altering = []string{"ID", "Type", "Payload", "Event-empty", "unknown-ID"}
-var c15Neutral = []string{"To", "DKGIdentifier", "CreatedAt", "ExtraData"}
+var c15Neutral = []string{"To", "DKGIdentifier", "CreatedAt", "ExtraData", "ResultMsgs-presigned"}
 
 // runC15: carrier faults on the hot<->cold path and the JSON round trips.
 func runC15(w *World, tier string) (bool, interface{}) {
@@ -187,6 +187,16 @@ func runC15(w *World, tier string) (bool, interface{}) {
 				case "ExtraData":
 					if string(genuine.Type) != string(types.ReinitDKG) {
 						genuine.ExtraData = []byte("carrier note")
+					}
+				case "ResultMsgs-presigned":
+					// sender and signature fields arrive already filled in by somebody else:
+					// the node must still attribute and sign what it posts
+					for k := range genuine.ResultMsgs {
+						if w.Tape.Bool(1, 2, "presign?") {
+							genuine.ResultMsgs[k].SenderAddr = "mallory"
+							genuine.ResultMsgs[k].Signature = ed25519.Sign(freshKey(w, uint64(k)+31), genuine.ResultMsgs[k].Bytes())
+							w.Stats.Fault("carrier-presigned-result-message")
+						}
 					}
 				}
 				body, _ = json.Marshal(genuine)
